@@ -162,10 +162,10 @@ Section HeadExtent.
     line_ok line1 -> Forall line_ok ls -> nolf line1 ->
     fits (line1 ++ crlf ++ enc_lines ls ++ crlf ++ x) ->
     parse_whole relaxed limit (line1 ++ crlf ++ enc_lines ls ++ crlf ++ x) = Done f rest ->
-    f_http f && (f_major f =? 1) = true ->
+    f_major f = 1 ->
     rest = x.
   Proof.
-    intros Hl1 Hls Hn1 Hf HP H1x.
+    intros Hl1 Hls Hn1 Hf HP Hmaj1.
     unfold parse_whole in HP. rewrite step_classify, do_parse_none in HP by reflexivity.
     rewrite none_view_line in HP by exact Hl1.
     set (buf := line1 ++ crlf ++ enc_lines ls ++ crlf ++ x) in *.
@@ -184,7 +184,14 @@ Section HeadExtent.
       - apply nolf_app. split; [exact Hn1|reflexivity].
       - rewrite <- Hb. unfold buf, crlf. rewrite <- !app_assoc. reflexivity. }
     destruct Hsplit as [-> ->].
-    rewrite Hma, Hht in H1x. destruct (Hend H1x) as (e & fold & HE & He & ->).
+    assert (H1x : r_http s1 && (r_major s1 =? 1) = true).
+    { rewrite Hma in Hmaj1.
+      destruct (parse_line_sound_1x relaxed (set_stage rst0 SFirst) (line1 ++ [13]) s1) as (m0 & t0 & d1 & d2 & _ & _ & _ & Hh & _).
+      - unfold fits in *. rewrite Hb in Hf. rewrite lenN_app in Hf. lia.
+      - exact PL.
+      - rewrite Hmaj1. discriminate.
+      - rewrite Hh, Hmaj1. reflexivity. }
+    destruct (Hend H1x) as (e & fold & HE & He & ->).
     destruct (headers_end_of_lines ls x Hls) as [fold' HE'].
     rewrite HE in HE'. inversion HE'; subst e.
     rewrite app_assoc. apply dropN_app_exact'.
@@ -322,10 +329,191 @@ Proof.
               ** assert (h_has_id ID_TE kept = true); [|congruence].
                  unfold h_has_id, h_del_id in *. rewrite existsb_exists in *. destruct HT as (x & Hin & Hx).
                  apply filter_In in Hin as [Hin _]. exists x. auto.
-              ** cbn in HT. rewrite orb_false_r in HT. rewrite N.eqb_sym in HT. rewrite HdrparseProofs.ids_differ in HT. discriminate.
+              ** unfold h_cl_entry in HT. cbn [existsb he_id] in HT. rewrite HdrparseProofs.ids_differ in HT. discriminate HT.
            ++ rewrite app_nil_r. split; [cbn; lia|reflexivity].
         -- split; [exact Hle|]. intros HT. congruence.
 Qed.
 
 Lemma values_of_len id es : length (values_of id es) = length (filter (fun e => he_id e =? id) es).
 Proof. unfold values_of. apply map_length. Qed.
+
+(* ====================================================================== 5. one message *)
+Definition fwd_ok (f : fwd) : Prop := (length (fw_cl f) <= 1)%nat /\ (fw_te f = true -> fw_cl f = []).
+
+Lemma hdr_choice_one_cl relaxed ma mime hr :
+  (if 1 <=? ma then h_parse relaxed true false mime else Some empty_hdr) = Some hr ->
+  (n_cl (hr_entries hr) <= 1)%nat.
+Proof.
+  destruct (1 <=? ma).
+  - intros H. apply (parsed_header_one_cl _ _ _ _ _ H).
+  - intros H; inversion H; subst. cbn. lia.
+Qed.
+
+(* what process_one hands to the next hop always has a single framing *)
+Theorem process_one_fwd_ok cf buf :
+  match process_one cf buf with
+  | MForward f _ _ => fwd_ok f /\ fw_te f = false
+  | MPartial f => fwd_ok f
+  | _ => True
+  end.
+Proof.
+  unfold process_one.
+  destruct (parse_whole (c_relaxed cf) (c_limit cf) buf) as [fl rest|[code fl]|s keep]; try exact I.
+  destruct (unmodelled_method (f_mid fl)); [exact I|].
+  destruct (f_mid fl =? req_m_none); [exact I|].
+  destruct (((f_major fl =? 0) && negb (f_minor fl =? 9)) || (1 <? f_major fl)); [exact I|].
+  destruct (if 1 <=? f_major fl then h_parse (c_relaxed cf) true false (f_mime fl) else Some empty_hdr) as [hr|] eqn:HP; [|exact I].
+  pose proof (hdr_choice_one_cl _ _ _ _ HP) as Hn.
+  destruct (match get_list ID_EXPECT (hr_entries hr) with Some l => negb (ci_eqb l w_100_continue) | None => false end); [exact I|].
+  destruct (negb (check_entity_framing _ _ _ _ _ _ _ =? 0)); [exact I|].
+  assert (Hv : (length (values_of ID_CL (hr_entries hr)) <= 1)%nat) by (rewrite values_of_len; exact Hn).
+  destruct (h_has_id ID_TE (hr_entries hr)).
+  - destruct (ChunkedModel.parse _ _ _ rest) as [ret st rem out| |]; try exact I.
+    destruct ret; unfold fwd_ok; cbn [fw_cl fw_te length]; repeat split; auto; try lia; discriminate.
+  - destruct (0 <? _)%Z.
+    + destruct (_ <=? lenN rest); unfold fwd_ok; cbn [fw_cl fw_te]; repeat split; auto; discriminate.
+    + unfold fwd_ok; cbn [fw_cl fw_te]; repeat split; auto; discriminate.
+Qed.
+
+Lemma takeN_app_exact' {A} (a b : list A) : takeN (lenN a) (a ++ b) = a.
+Proof.
+  induction a as [|x a IH]; cbn [lenN app takeN].
+  - destruct b; reflexivity.
+  - destruct (N.succ (lenN a) =? 0) eqn:E; [apply N.eqb_eq in E; lia|]. rewrite N.pred_succ, IH. reflexivity.
+Qed.
+
+(* the strictly formed chunked body, all of it in the buffer and nothing after it: decoded exactly (C24) *)
+Lemma chunked_whole relaxed cap m : ChunkedProofs.message_ok m -> lenN (ChunkedProofs.body m) <= cap ->
+  exists st, ChunkedModel.parse relaxed cap ChunkedModel.init_state (ChunkedProofs.encode m) =
+             ChunkedModel.PRet true st [] (ChunkedProofs.body m).
+Proof.
+  intros Hm Hcap.
+  pose proof (ChunkedProofs.dechunk_exact relaxed m [] [(ChunkedProofs.encode m, cap)] [] Hm) as H.
+  assert (Hs : ChunkedProofs.segs [(ChunkedProofs.encode m, cap)] ++ [] = ChunkedProofs.encode m ++ []).
+  { unfold ChunkedProofs.segs. cbn [map concat fst]. rewrite !app_nil_r. reflexivity. }
+  specialize (H Hs).
+  assert (Hl : ChunkedProofs.live [] [] [(ChunkedProofs.encode m, cap)] (lenN (ChunkedProofs.body m))).
+  { cbn [ChunkedProofs.live]. left. split; [cbn; lia|]. cbn. lia. }
+  specialize (H Hl). cbv zeta in H. destruct H as (Hst & Hout & used & later & Hsg & Hused).
+  unfold ChunkedModel.run_chunked, ChunkedModel.run in *. cbn [app] in *.
+  destruct (ChunkedModel.parse relaxed cap ChunkedModel.init_state (ChunkedProofs.encode m)) as [ret st rem o| |] eqn:P;
+    cbn [ChunkedModel.r_status ChunkedModel.r_out ChunkedModel.r_rest] in *; try discriminate.
+  destruct ret.
+  - cbn [ChunkedModel.r_status ChunkedModel.r_out ChunkedModel.r_rest app] in *.
+    unfold ChunkedProofs.segs in Hsg. cbn [map concat fst] in Hsg. rewrite app_nil_r in Hsg.
+    rewrite Hused in Hsg. rewrite <- app_assoc in Hsg.
+    assert (Hnil : rem ++ later = []).
+    { apply (app_inv_head (ChunkedProofs.encode m)). rewrite app_nil_r. symmetry. exact Hsg. }
+    apply app_eq_nil in Hnil as [-> _]. exists st. subst o. reflexivity.
+  - destruct (ChunkedModel.p_stage st); cbn [ChunkedModel.r_status] in Hst; discriminate.
+Qed.
+
+Ltac len_solve := unfold crlf in *; repeat (rewrite lenN_app in * || cbn [lenN] in * ); lia.
+
+(* MESSAGE EXTENT.  The strict reader sees, at the front of the connection buffer, a head
+   line1 CRLF *(line CRLF) CRLF followed by body_enc and then tail.  If Squid forwards a message from this buffer as
+   HTTP/1.x and its framing decision is the strict reader's (kind and declared length: the hypothesis Hfr), then the
+   message ends exactly where the strict reader's ends: the bytes left for the next message are tail, and the body
+   handed upstream is the strict body.  For a chunked body this is shown when nothing follows it in the buffer. *)
+Theorem message_extent cf line1 ls body_enc tail f persist rest :
+  line_ok line1 -> Forall line_ok ls ->
+  fits (line1 ++ crlf ++ enc_lines ls ++ crlf ++ body_enc ++ tail) ->
+  process_one cf (line1 ++ crlf ++ enc_lines ls ++ crlf ++ body_enc ++ tail) = MForward f persist rest ->
+  fw_major f = 1 ->
+  (fw_chunked f = false /\ lenN body_enc = Z.to_N (fw_clen f)) \/
+  (fw_chunked f = true /\ tail = [] /\
+   exists m, ChunkedProofs.message_ok m /\ body_enc = ChunkedProofs.encode m /\ lenN (ChunkedProofs.body m) <= c_cap cf) ->
+  rest = tail /\
+  fw_head f = lenN (line1 ++ crlf ++ enc_lines ls ++ crlf) /\
+  fw_used f = lenN (line1 ++ crlf ++ enc_lines ls ++ crlf ++ body_enc) /\
+  (fw_chunked f = false -> fw_body f = body_enc) /\
+  (fw_chunked f = true -> forall m, ChunkedProofs.message_ok m -> body_enc = ChunkedProofs.encode m ->
+                          lenN (ChunkedProofs.body m) <= c_cap cf -> fw_body f = ChunkedProofs.body m).
+Proof.
+  intros Hl1 Hls Hf HP Hma Hfr.
+  unfold process_one in HP.
+  destruct (parse_whole (c_relaxed cf) (c_limit cf) (line1 ++ crlf ++ enc_lines ls ++ crlf ++ body_enc ++ tail))
+    as [fl r0|[code fl]|s keep] eqn:PW; try discriminate.
+  destruct (unmodelled_method (f_mid fl)); [discriminate|].
+  destruct (f_mid fl =? req_m_none); [discriminate|].
+  destruct (((f_major fl =? 0) && negb (f_minor fl =? 9)) || (1 <? f_major fl)); [discriminate|].
+  destruct (if 1 <=? f_major fl then h_parse (c_relaxed cf) true false (f_mime fl) else Some empty_hdr) as [hr|]; [|discriminate].
+  destruct (match get_list ID_EXPECT (hr_entries hr) with Some l => negb (ci_eqb l w_100_continue) | None => false end); [discriminate|].
+  destruct (negb (check_entity_framing _ _ _ _ _ _ _ =? 0)); [discriminate|].
+  assert (Hmaj : f_major fl = 1).
+  { destruct (h_has_id ID_TE (hr_entries hr)).
+    - destruct (ChunkedModel.parse _ _ _ r0) as [ret st rem out| |]; try discriminate. destruct ret; inversion HP; subst f; exact Hma.
+    - destruct (0 <? _)%Z; [destruct (_ <=? lenN r0)|]; inversion HP; subst f; exact Hma. }
+  assert (Hr0 : r0 = body_enc ++ tail).
+  { destruct Hl1 as [Hn1 Hc1]. eapply head_extent; try eassumption. split; assumption. }
+  subst r0. clear PW Hma.
+  destruct (h_has_id ID_TE (hr_entries hr)) eqn:TE.
+  - (* chunked *)
+    destruct Hfr as [[Hc _]|(Hc & Ht & m & Hm & Hb & Hcap)].
+    { destruct (ChunkedModel.parse _ _ _ (body_enc ++ tail)) as [ret st rem out| |]; try discriminate.
+      destruct ret; inversion HP; subst f; cbn [fw_chunked] in Hc; discriminate. }
+    subst tail body_enc. rewrite app_nil_r in HP.
+    destruct (chunked_whole (c_relaxed cf) (c_cap cf) m Hm Hcap) as [st P]. rewrite P in HP.
+    inversion HP; subst f rest persist. cbn [fw_head fw_used fw_chunked fw_body].
+    split; [reflexivity|]. split; [len_solve|]. split; [len_solve|].
+    split; [discriminate|].
+    intros _ m' Hm' He' Hc'.
+    destruct (chunked_whole (c_relaxed cf) (c_cap cf) m' Hm' Hc') as [st' P']. rewrite <- He' in P'. rewrite P in P'.
+    inversion P'. reflexivity.
+  - (* Content-Length or no body *)
+    destruct Hfr as [[Hc Hn]|(Hc & _)].
+    2:{ destruct (0 <? _)%Z; [destruct (_ <=? lenN (body_enc ++ tail))|]; inversion HP; subst f; cbn [fw_chunked] in Hc; discriminate. }
+    destruct (0 <? _)%Z eqn:Hpos.
+    + destruct (_ <=? lenN (body_enc ++ tail)) eqn:Hfit; [|discriminate].
+      inversion HP; subst f rest persist. cbn [fw_head fw_used fw_chunked fw_body fw_clen] in *.
+      rewrite <- Hn. rewrite takeN_app_exact', dropN_app_exact'.
+      split; [reflexivity|]. split; [len_solve|]. split; [len_solve|].
+      split; [reflexivity|discriminate].
+    + inversion HP; subst f rest persist. cbn [fw_head fw_used fw_chunked fw_body fw_clen] in *.
+      assert (body_enc = []) as ->.
+      { destruct body_enc; [reflexivity|]. cbn [lenN] in Hn. lia. }
+      cbn [app]. split; [reflexivity|]. split; [len_solve|]. split; [len_solve|].
+      split; [reflexivity|discriminate].
+Qed.
+
+Lemma run_conn_fwd_ok : forall fuel cf off buf e, In e (run_conn fuel cf off buf) ->
+  match e with
+  | EForward _ f => fwd_ok f /\ fw_te f = false
+  | EPartial _ f => fwd_ok f
+  | _ => True
+  end.
+Proof.
+  induction fuel as [|k IH]; intros cf off buf e Hin; cbn [run_conn] in Hin.
+  - destruct Hin as [<-|[]]. exact I.
+  - destruct buf as [|b0 buf]; [destruct Hin|].
+    pose proof (process_one_fwd_ok cf (b0 :: buf)) as Hok.
+    destruct (process_one cf (b0 :: buf)) as [ |c| |f persist rest|f| | ]; cbn [In] in Hin.
+    1: destruct Hin.
+    1,2,4,5,6: destruct Hin as [<-|[]]; try exact I; exact Hok.
+    destruct Hin as [<-|Hin]; [exact Hok|].
+    destruct persist; [eapply IH; exact Hin|]. destruct Hin as [<-|[]]. exact I.
+Qed.
+
+(* ====================================================================== 6. the witness of the known finding *)
+Definition w_l1 : bytes := [80;79;83;84;32;104;116;116;112;58;47;47;111;47;109;48;32;72;84;84;80;47;49;46;49].          (* POST http://o/m0 HTTP/1.1 *)
+Definition w_host : bytes := [72;111;115;116;58;32;104].        (* Host: h *)
+Definition w_te_line : bytes := name_transfer_encoding ++ [58; 32] ++ word_chunked ++ [11].   (* Transfer-Encoding: chunked<VT> *)
+Definition w_cl_line : bytes := [67;111;110;116;101;110;116;45;76;101;110;103;116;104;58;32;54;49].     (* Content-Length: 61 *)
+Definition w_inner : bytes := [71;69;84;32;104;116;116;112;58;47;47;111;47;120;48;32;72;84;84;80;47;49;46;49;13;10;72;111;115;116;58;32;104;13;10;67;111;110;110;101;99;116;105;111;110;58;32;99;108;111;115;101;13;10;13;10].       (* GET http://o/x0 HTTP/1.1 CRLF Host: h CRLF Connection: close CRLF CRLF *)
+Definition w_body : bytes := [48; 13; 10; 13; 10] ++ w_inner.      (* 0 CRLF CRLF, then the embedded request *)
+Definition w_head : bytes := w_l1 ++ crlf ++ enc_lines [w_host; w_te_line; w_cl_line] ++ crlf.
+Definition w_stream : bytes := w_head ++ w_body.
+Definition w_inner_uri : bytes := [104;116;116;112;58;47;47;111;47;120;48].   (* http://o/x0 *)
+
+(* In both parser modes Squid takes `chunked<VT>` for chunked: it forwards the POST with an empty body and then the
+   embedded GET as a second request, which starts INSIDE the 61 bytes the Content-Length field declares as the body. *)
+Theorem vt_after_chunked_refuted : forall relaxed, exists f1 f2,
+  run_stream (sm_default_cfg relaxed) w_stream = [EForward 0 f1; EForward (lenN w_head + 5) f2; EClose] /\
+  fw_chunked f1 = true /\ fw_body f1 = [] /\ fw_uri f2 = w_inner_uri /\
+  lenN w_body = 61 /\ Forall line_ok [w_l1; w_host; w_te_line; w_cl_line] /\
+  (* the field value is not the token "chunked": removing optional white space (SP / HTAB) leaves the VT *)
+  w_te_line = name_transfer_encoding ++ [58; 32] ++ word_chunked ++ [11].
+Proof.
+  intros [|]; eexists; eexists; (split; [vm_compute; reflexivity|]);
+    repeat split; try reflexivity; repeat constructor; try discriminate.
+Qed.
